@@ -201,7 +201,7 @@ def run(ck, prog, tier, load):
             tgt = [tb for lab, tb in br[1] if lab is True]
             if tgt:
                 tbl[code] = tgt[0]
-    ck.anchor("C02-c", len(tbl), 5, "status comparisons in encode_headers")
+    ck.anchor("C02-c", len(tbl), 3, "status comparisons in encode_headers")
 
     # roles, not names: SKIP = the bool local of encode_headers that the header-copy closure captures and tests in
     # its Content-Length / Transfer-Encoding arm; LENV = the BodySize local/parameter that selects the framing line
@@ -266,7 +266,7 @@ def run(ck, prog, tier, load):
     ck.ob("C02-c.user-length-skipped", "encode_headers", ok_len, eh, None, "user Content-Length / Transfer-Encoding are copied only when skip_len is false")
     me = prog.one(r"^actix_http::h1::encoder::MessageEncoder::encode$")
     ctors = [(bb, cname(t).split("::")[-1]) for bb, t in me.calls(r"^actix_http::h1::encoder::TransferEncoding::(length|chunked|eof|empty)$")]
-    ck.anchor("C02-c", len(ctors), 4, "TransferEncoding constructors in MessageEncoder::encode")
+    ck.anchor("C02-c", len(ctors), 2, "TransferEncoding constructors in MessageEncoder::encode")
     # HEADP = the parameter of MessageEncoder::encode into which the server codec passes `flags.contains(HEAD)`
     HEADP = set()
     for b_, bb_, t_ in prog.callers(r"^actix_http::h1::encoder::MessageEncoder(<T>)?::encode$"):
@@ -365,7 +365,7 @@ def run(ck, prog, tier, load):
         msg = presp.op_expr(t["args"][1])
         kind = "Chunk(None)" if any(is_agg(x, r"Option::None$") for x in walk(msg)) else "Chunk(Some)"
         ck.ob("C02-d.encode-result-propagated", "poll_response|%s|%d" % (kind, n_e), bool(used) and presp.succ[bb] == [used[0]], presp, bb, "the Result of Codec::encode(%s) goes straight into `?`" % kind)
-    ck.anchor("C02-d", n_e, 4, "Codec::encode calls in poll_response")
+    ck.anchor("C02-d", n_e, 2, "Codec::encode calls in poll_response")
     berr = [(bb, e) for bb, e in presp.ret_exprs() if is_agg(e, r"Result::Err$") and any(is_agg(x, r"DispatchError::Body$") for x in walk(e))]
     ck.anchor("C02-d", len(berr), 2, "Err(DispatchError::Body) returns in poll_response")
     eof_calls = [bb for bb, t in presp.calls(r"Encoder<.*>>::encode$") if any(is_agg(x, r"Option::None$") for x in walk(presp.op_expr(t["args"][1])))]
